@@ -102,6 +102,10 @@ class ParamUse:
             return []
         if isinstance(par, (ast.BoolOp, ast.UnaryOp, ast.IfExp)) :
             if isinstance(par, ast.IfExp) and par.test is not node:
+                # `X if c else <param>`: the conditional expression stands for the parameter object in its own context
+                gp = getattr(par, '_parent', None)
+                if (isinstance(gp, (ast.For, ast.AsyncFor)) and gp.iter is par) or (isinstance(gp, ast.comprehension) and gp.iter is par) or isinstance(gp, ast.Compare):
+                    return []
                 return [('escape', 'parameter object may be returned/bound by a conditional expression', ln)]
             if isinstance(par, ast.BoolOp):
                 gp = getattr(par, '_parent', None)
